@@ -6,6 +6,7 @@ import types
 
 from .. import astutil as A
 from ..fa import FA
+from ..cfg import CFG
 from ..loader import AnalysisError
 
 CH = "code_hash"
@@ -663,6 +664,11 @@ def _spec_literals(fa, spec):
     for (t, pol) in spec["atoms"]:
         (txt, p2) = fa._literal(_rename(t, spec["var"], "_c0"), spec["at"], pol)
         e = _parse_lit(txt)
+        if e is not None and any(isinstance(x, ast.Name) and x.id == spec["var"] for x in ast.walk(e)):
+            # a temporary of the loop body that stands for something of the element (`h = rule.compute_hash()` ... `if h is not None`)
+            # is expanded by FA after the renaming: the element variable comes back under its own name
+            e = _rename(e, spec["var"], "_c0")
+            txt = A.norm(e)
         if isinstance(e, ast.Compare) and len(e.ops) == 1 and isinstance(e.ops[0], ast.Eq):
             a_, b_ = sorted([A.norm(e.left), A.norm(e.comparators[0])])
             txt = "%s == %s" % (a_, b_)
@@ -1561,7 +1567,7 @@ def check_digest_consumes_rules(ck, R):
         # canonical order: the order in which the constructor assigns the fields
         free.sort(key=lambda f: f[3])
         okf = delimited or not free
-        ck.ob(R, fa.key(ups[0], "fold-injective:" + ",".join(f[0] for f in free)), okf,
+        ck.ob(R, fa.key(None, "fold-injective:" + ",".join(f[0] for f in free)), okf,
               "rule hashes are folded with a delimiter" if delimited else "every folded piece has a fixed width" if okf else
               "rule hashes are concatenated into the digest with nothing between them, and %s are caller-chosen strings of any length: "
               "moving a character between the explicit versions of two dependencies ('1','23' -> '12','3') leaves the caller's version "
@@ -2365,7 +2371,9 @@ def check_enforcement(ck, R):
         same = sorted([CALLER + ".qualified_name_without_version", "self.qualified_name_without_version"])
         want.add(("%s == %s" % (same[0], same[1]), False))
         memb = [l for l in lits if l[0].startswith("self.fn_reference().qualified_name in ") and l[1] is False]
-        okr = want <= lits and len(memb) == 1
+        # `not in A and not in B` (two guard clauses) is `not in A | B`: several membership tests are one valid set, provided each
+        # of the sets is made of the caller's dependencies or of the function references among its arguments
+        okr = want <= lits and (len(memb) == 1 or (len(memb) > 1 and _membership_sets_are_closure_or_arguments(v)))
         if memb:
             valid = memb[0][0].split(" in ", 1)[1]
         extra = sorted(lits - want - set(memb))
@@ -2413,6 +2421,23 @@ def check_enforcement(ck, R):
     okf = okr
     ck.ob(R, v.key(None, "caller-from-stack"), okf, "the caller is the top frame of this thread's call stack" if okf else
           "the caller is not taken from CallStack.get().get_calling_frame()", v.where())
+
+
+def _membership_sets_are_closure_or_arguments(v) -> bool:
+    """Every set in which _validate_dependency looks the callee's own name up is derived (by value flow, in-place filling included)
+    from `<caller>.dependencies().transitive_memento_fn_dependencies()` or from `_extract_fn_ref_args(<the caller's arguments>)`."""
+    n_sites = 0
+    for n in v.cfg.nodes:
+        if n.kind != "test" and not (n.ast is not None and isinstance(n.ast, (ast.Assign, ast.AnnAssign))):
+            continue
+        for x in ast.walk(n.ast if n.kind == "test" else (n.ast.value or ast.Pass())):
+            if isinstance(x, ast.Compare) and len(x.ops) == 1 and isinstance(x.ops[0], (ast.In, ast.NotIn)) \
+                    and v.xnorm(x.left, n.id) == "self.fn_reference().qualified_name":
+                n_sites += 1
+                calls = {A.call_attr(y) for y in _backward_slice(v, [(x.comparators[0], n.id)], control_dependence=False, nested=False).values() if isinstance(y, ast.Call)}
+                if not ({"transitive_memento_fn_dependencies", "dependencies"} <= calls or "_extract_fn_ref_args" in calls):
+                    return False
+    return n_sites > 0
 
 
 # --------------------------------------------------------------------------------- C14.R3 (K1)
@@ -4735,6 +4760,86 @@ def check_dotted_names(ck, R):
     # the locals that stand for that set
     RESNAMES = {d.name for ds in fa.df.gen.values() for d in ds if d.kind == "assign" and d.value is not None and "." not in d.name and is_res(d.value, d.node)}
 
+    # Every piece of the function's own source is a place where it can name something it depends on: the body, and the `def`
+    # line as well (a helper used only as a parameter default, a decorator, ...: fn_code_hash describes a function-valued
+    # default by name only, so the name has to be a dependency).  So (1) on every path on which the name set is taken from
+    # the visitor, the visitor was run over the WHOLE parse tree of the source, not over a selection of its sub-trees, and
+    # (2) no handler of the visitor stops the descent below a node kind that has children.
+    def whole_tree(e, at):
+        """does `e` stand, in all its alternatives, for the complete result of parsing the function's source?"""
+        alts_ = _alternatives(fa, e, at)
+        for (x, a_) in alts_:
+            x = fa.expand(x, a_)
+            if not (isinstance(x, ast.Call) and A.call_attr(x) == "parse" and len(x.args) >= 1
+                    and any(isinstance(c_, ast.Call) and A.call_attr(c_) == "getsource" for c_ in ast.walk(x.args[0]))):
+                return False
+        return bool(alts_)
+
+    def on_visitor(c):
+        r_ = A.call_recv(c)
+        if r_ is None or not fa.nodes(c):
+            return False
+        x = fa.expand(r_, fa.nodes(c)[0])
+        return isinstance(x, ast.Call) and A.call_attr(x) == cls.name
+
+    runs = [c for c in fa.calls() if A.call_attr(c) in ("visit", "generic_visit") and on_visitor(c)]
+    whole = [c for c in runs if A.call_attr(c) == "visit" and len(c.args) == 1 and whole_tree(c.args[0], fa.nodes(c)[0])]
+    whole_nodes = set(fa.nodes_all(whole))
+    # `for st in <whole tree>.body: visitor.visit(st)`, every statement of the module visited: the same as visiting the module
+    for c in runs:
+        if c in whole or A.call_attr(c) != "visit" or len(c.args) != 1 or not isinstance(c.args[0], ast.Name):
+            continue
+        ds = fa.df.reaching(fa.nodes(c)[0], c.args[0].id)
+        if len(ds) == 1 and ds[0].kind == "for" and isinstance(ds[0].stmt, ast.For) and isinstance(ds[0].stmt.target, ast.Name) and fa.nodes(ds[0].stmt):
+            lp = ds[0].stmt
+            h_ = fa.nodes(lp)[0]
+            it = fa.expand(lp.iter, h_)
+            if isinstance(it, ast.Attribute) and it.attr == "body" and isinstance(lp.iter, ast.Attribute):
+                base_ = lp.iter.value
+                if whole_tree(base_, h_) and all(_every_iteration_passes(fa, hh, fa.nodes(c)) for hh in fa.nodes(lp)):
+                    whole.append(c)
+                    whole_nodes |= set(fa.nodes(lp))
+    takes = []   # where the name set is taken out of the visitor
+    for st in fa.stmts():
+        for nid in fa.nodes(st):
+            for sub in (fa.cfg._own_exprs(fa.cfg.node(nid)) if fa.cfg.node(nid).ast is not None else ()):
+                if isinstance(sub, ast.Attribute) and isinstance(sub.ctx, ast.Load) and sub.attr in ACC and is_res(sub, nid):
+                    takes.append((st, nid))
+    bad_take = [(st, nid) for (st, nid) in takes if not fa.cfg.must_pass(whole_nodes, nid)]
+    partial = [c for c in runs if c not in whole]
+    okw = bool(takes) and not bad_take
+    ck.ob(R, fa.key(None, "whole-source-visited"), okw, "the names are taken after the visitor has gone over the whole parse tree of the source" if okw else
+          ("the name set is read from the visitor on a path on which the visitor has not been run over the whole parse tree of the "
+           "function's source%s: names that occur only in the skipped parts (a helper or global used only as a parameter default, in a "
+           "decorator or an annotation) get no hash rule, so editing them keeps the version and the stored result is served, and a "
+           "memento function named only there is missing from the closure"
+           % ((" (only over `%s`)" % A.short(partial[0].args[0], 50)) if partial and partial[0].args else "")),
+          fa.where(bad_take[0][0] if bad_take else None))
+    pruned = []
+    for (nm_, m_) in sorted(methods.items()):
+        if not (nm_.startswith("visit_") or nm_ in ("visit", "generic_visit")) or nm_ in ("visit_Name", "visit_Constant"):
+            continue   # Name / Constant nodes have no sub-expressions
+        pn = m_.args.args[1].arg if len(m_.args.args) > 1 else None
+        me_ = m_.args.args[0].arg if m_.args.args else "self"
+        g = CFG(m_)
+        down = set()
+        for c in ast.walk(m_):
+            if not (isinstance(c, ast.Call) and len(c.args) >= 1 and isinstance(c.args[-1], ast.Name) and c.args[-1].id == pn):
+                continue
+            r_ = A.call_recv(c)
+            if nm_.startswith("visit_"):
+                # self.generic_visit(node) (or the base class's, called explicitly)
+                hit = A.call_attr(c) == "generic_visit" and r_ is not None and (A.norm(r_) == me_ or A.norm(r_).startswith("super(") or A.norm(r_).endswith("NodeVisitor"))
+            else:
+                hit = A.call_attr(c) == nm_ and r_ is not None and (A.norm(r_).startswith("super(") or A.norm(r_).endswith("NodeVisitor"))
+            if hit:
+                down |= set(g.nodes_of(c))
+        if not g.must_pass(down, g.exit):
+            pruned.append(nm_)
+    ck.ob(R, fa.key(None, "no-subtree-pruned"), not pruned, "every handler of the visitor goes on below the node it handles" if not pruned else
+          "the visitor's %s can return without descending into the node's children (generic_visit): the names inside those "
+          "sub-trees are never recorded, so what the function refers to there is neither hashed nor in the closure" % ", ".join(pruned), fa.where())
+
     def local_sources(e, at, depth=6):
         """where the elements of a set-valued expression come from (attribute chains)"""
         if depth <= 0 or e is None:
@@ -5424,3 +5529,100 @@ def check_variable_kinds_described(ck, R):
     ck.ob(R, sv.key(None, "kinds-described:keys"), okk, "non-string dictionary keys are described in the hash of a tracked variable" if okk else
           "the hash of a tracked variable is taken from a JSON dump, which writes every dictionary key as a string, and nothing else describes "
           "the keys: editing G = {1: 'a'} into G = {'1': 'a'} leaves every version where it was", sv.where())
+
+
+def _fresh_or_constant(e) -> bool:
+    """a value that carries nothing over from an earlier call: a constant, or a container made on the spot"""
+    if e is None or isinstance(e, ast.Constant):
+        return True
+    if isinstance(e, (ast.Set, ast.List, ast.Tuple, ast.Dict)):
+        return True
+    return isinstance(e, ast.Call) and isinstance(e.func, ast.Name) and e.func.id in ("set", "list", "dict", "tuple", "frozenset") and not e.args and not e.keywords
+
+
+def check_edges_of_a_node_depend_on_its_function_only(ck, R):
+    """The dependency graph links EACH memento function to those it reaches without passing through another memento function.  The
+    rules between a function and the first memento functions below it (what its edges are made from) are therefore a function of
+    that function's own hash rules alone: whatever the derivation consults to decide which rules to follow or to return - the set
+    that stops the walk on a cycle, the work list - is made inside the call.  State that outlives the call (a parameter the caller
+    binds to a set it keeps for the whole graph, a field of the class, a module-level container) makes the answer for one function
+    depend on which functions of the graph were asked before it: a plain helper followed for the first function is not followed
+    again for the second, and the second loses its edges to the memento functions behind that helper."""
+    ck.rule(R, "the rules from which a node's edges are made depend on the node's own function only (no state carried from one function of the graph to the next)", 1)
+    Q = "dependency_graph.DependencyGraph._rules_until_first_memento_fn"
+    fa = FA(ck, Q)
+    if fa.host_fallback:
+        # the derivation was folded into its caller (one call of generate_graph per function): its working sets are locals there
+        ck.ob(R, fa.key(None, "edges-from-own-function"), True, "the derivation is part of the per-function step of generate_graph", fa.where())
+        return
+    rets = [r for r in fa.returns() if r.value is not None and fa.nodes(r)]
+    ck.need(bool(rets), "_rules_until_first_memento_fn: no returned value found")
+    sl = _backward_slice(fa, [(r.value, fa.nodes(r)[0]) for r in rets], stmts=rets)
+    # the parameter that stands for the function: the one whose hash rules are read
+    fn_params = set()
+    for c in fa.calls("hash_rules"):
+        r_ = A.call_recv(c)
+        if isinstance(r_, ast.Name) and r_.id in fa.fi.params:
+            fn_params.add(r_.id)
+    ck.need(len(fn_params) == 1, "_rules_until_first_memento_fn: expected one parameter whose hash_rules() are read, found %d" % len(fn_params))
+    own = {"self", "cls"} | fn_params
+    mod = fa.fi.module
+    carried = []   # (what, where)
+    sites = ck.cg.call_sites_of(lambda c, cands: any(f.qual == Q for f in cands))
+    for n in sl.values():
+        if isinstance(n, ast.Name) and isinstance(n.ctx, ast.Load):
+            if n.id in fa.fi.params and n.id not in own:
+                at = (fa.nodes(n) or [None])[0]
+                if at is not None and not any(d.kind == "param" for d in fa.df.reaching(at, n.id)):
+                    continue   # re-bound before this read
+                dflt = _ValueOrigins._default(fa, n.id)
+                binds = []
+                for (caller, call, _c) in sites:
+                    a_ = _call_arg(ck, call, Q, n.id)
+                    if a_ is not None:
+                        binds.append((caller, call, a_))
+                    elif any(isinstance(x, ast.Starred) for x in call.args) or any(k.arg is None for k in call.keywords):
+                        binds.append((caller, call, None))
+                for (caller, call, a_) in binds:
+                    if a_ is not None and not _fresh_or_constant(a_):
+                        # something computed from the very function the call is about (`f.hash_rules()` handed in next to `f`)
+                        cfa = FA(ck, caller)
+                        f_ = _call_arg(ck, call, Q, sorted(fn_params)[0])
+                        if f_ is not None and cfa.nodes(call):
+                            at_ = cfa.nodes(call)[0]
+                            about = {x.id for x in ast.walk(cfa.expand(f_, at_)) if isinstance(x, ast.Name)}
+                            used = {x.id for x in ast.walk(cfa.expand(a_, at_)) if isinstance(x, ast.Name)} - {"self", "cls", "set", "list", "tuple", "sorted", "frozenset", "dict"}
+                            if used and used <= about:
+                                continue
+                            # a container made for this very call, handed in through a temporary
+                            if isinstance(a_, ast.Name) and cfa.df.is_local(a_.id):
+                                ds_ = cfa.df.reaching(at_, a_.id)
+                                loops = (ast.For, ast.AsyncFor, ast.While)
+                                if ds_ and all(d.kind == "assign" and d.value is not None and not isinstance(d.value, ast.Constant) and _fresh_or_constant(d.value)
+                                               and d.stmt is not None and cfa.enclosing(d.stmt, loops) is cfa.enclosing(call, loops) for d in ds_):
+                                    continue
+                    if a_ is None or not _fresh_or_constant(a_):
+                        carried.append(("parameter `%s`, which %s binds to `%s`" % (n.id, caller.qual, A.short(a_, 40) if a_ is not None else "*args/**kwargs"),
+                                        "%s:%d" % (caller.file, call.lineno)))
+                if dflt is not None and not isinstance(dflt, ast.Constant):
+                    carried.append(("parameter `%s`, whose default `%s` is one object shared by all calls" % (n.id, A.short(dflt, 40)), fa.where()))
+            elif not fa.df.is_local(n.id) and n.id in mod.assigns and not isinstance(mod.assigns[n.id], ast.Constant) \
+                    and n.id not in mod.functions and n.id not in mod.classes:
+                v_ = mod.assigns[n.id]
+                if isinstance(v_, (ast.Set, ast.List, ast.Dict)) or (isinstance(v_, ast.Call) and A.call_attr(v_) in ("set", "list", "dict", "defaultdict", "OrderedDict", "WeakSet", "WeakKeyDictionary", "WeakValueDictionary", "deque")):
+                    carried.append(("module-level container `%s`" % n.id, fa.where(fa.stmt_of(n)) if fa.stmt_of(n) is not None else fa.where()))
+        elif isinstance(n, ast.Attribute) and isinstance(n.ctx, ast.Load) and isinstance(n.value, ast.Name) and n.value.id in ("self", "cls") \
+                and n.value.id in fa.fi.params:
+            par = fa.pm.get(n)
+            if isinstance(par, ast.Call) and par.func is n:
+                continue   # a method of the class
+            carried.append(("field `%s`" % A.norm(n), fa.where(fa.stmt_of(n)) if fa.stmt_of(n) is not None else fa.where()))
+    carried = sorted(set(carried))
+    ok = not carried
+    ck.ob(R, fa.key(None, "edges-from-own-function"), ok,
+          "which rules are followed and returned for `%s` is decided from its own hash rules and sets made inside the call" % sorted(fn_params)[0] if ok else
+          "which rules _rules_until_first_memento_fn follows and returns for `%s` also depends on %s: state that lives longer than the call, so the "
+          "answer for one function depends on the functions asked before it - a plain helper already followed for another function of the graph "
+          "is not followed again, and every further memento function that reaches a memento function through that helper loses its edge in "
+          "graph()/df() (its own dependencies().df() still shows it)" % (sorted(fn_params)[0], "; ".join(w for (w, _l) in carried[:3])),
+          carried[0][1] if carried else fa.where())
